@@ -281,6 +281,15 @@ class Bounds:
             elif nm in ("max",) and len(a[2]) == 2:
                 (xl, xh), (yl, yh) = sub(a[2][0]), sub(a[2][1])
                 lo, hi = max(lo, max(xl, yl)), min(hi, max(xh, yh))
+            elif nm == "div_ceil" and len(a[2]) == 2:
+                (xl, xh), (yl, yh) = sub(a[2][0]), sub(a[2][1])
+                if yl >= 1 and xl >= 0:
+                    lo, hi = max(lo, 0), min(hi, (-(-xh // yl)) if xh != INF else INF)
+            elif nm in ("saturating_add", "wrapping_add", "checked_add") and len(a[2]) == 2 and False:
+                pass
+            elif nm == "abs_diff" and len(a[2]) == 2:
+                (xl, xh), (yl, yh) = sub(a[2][0]), sub(a[2][1])
+                lo, hi = max(lo, 0), min(hi, max(xh, yh))
             elif nm == "output_len" and "digest" in a[1]:
                 lo, hi = max(lo, 1), min(hi, 64)       # ring digests are at most 64 bytes (SHA-512)
             elif a[1] in self.W.prog.fns and depth < 3:
